@@ -160,7 +160,9 @@ static int g_cur_voice_first;		/* voice index whose first kernel call of the tic
 static struct mixer_voice *g_first_seen[1];
 
 /* budgets for emitted model cases, per module */
-static int b_sum, b_kern, b_vol, b_dmx, b_vt;
+static int b_sum, b_kern, b_vol, b_dmx, b_vt, b_k2, b_pk;
+static long st_pk_cases;
+static long st_k2_cases, st_k2_skipped, st_maxvol, st_maxlevel;
 static int p_kern;			/* sampling percentage for kernel calls */
 
 /* statistics */
@@ -168,6 +170,8 @@ static long st_ticks, st_voice_solos, st_kernel_calls, st_fail, st_active_voice_
 	st_kern_cases, st_vol_cases, st_sum_cases, st_vt_cases, st_vt_skipped, st_ac_kernel_calls, st_filter_calls,
 	st_paula_calls, st_nonzero_words, st_wraps, st_one_frame_calls;
 static int g_tick_active;		/* voices the voice loop will look at in the current tick */
+static long st_maxactive;		/* most voices mixed in one tick */
+static long long st_maxacc;		/* largest exact |sum of the voices' words| of one accumulator word */
 static const char *g_modname = "?";
 
 /* spans recorded for the voice-tick case (solo re-run of the chosen voice) */
@@ -202,6 +206,155 @@ static int *extract_smps(kern_fp real, int stereo, int kind, struct mixer_voice 
 			scratch[i] /= 256;
 	}
 	return scratch;
+}
+
+static int nwords(struct context_data *ctx);
+
+/* Bit-exact kernel case from a real call of the voice loop (driver command `k2`, Xmp.MixKernel.run): the
+ * kernel is named by (interp, table index), the sample window is read from the live sample memory (with the
+ * loop wrap-around patches in place), `vi->pos` is passed exactly.  Returns 1 when the case was emitted (the
+ * real kernel has then been called). */
+static int emit_k2(kern_fp real, const char *name, int stereo, struct mixer_voice *vi, int *buf, int count, int vl, int vr,
+		   int step, int ramp, int dl, int dr)
+{
+	struct module_data *m = &g_ctx->m;
+	struct xmp_module *mod = &m->mod;
+	struct xmp_sample *xxs;
+	int interp = strstr(name, "nearest") ? XMP_INTERP_NEAREST : strstr(name, "spline") ? XMP_INTERP_SPLINE : XMP_INTERP_LINEAR;
+	int s16 = strstr(name, "16bit") != NULL, ssmp = strstr(name, "_stereo_") != NULL;
+	int id = (s16 ? FLAG_16_BITS : 0) | (ssmp ? FLAG_STEREO : 0) | (stereo ? FLAG_STEREOOUT : 0) |
+		 (strstr(name, "filter") ? FLAG_FILTER : 0);
+	int chn = ssmp ? 2 : 1, n = stereo ? 2 * count : count, i, e;
+	int frac0, pe, tail;
+	long pos0, endf, lo, hi, pre;
+	int64_t walk;
+	long long pm;
+	double fr;
+	int ex;
+
+	if (vi->smp < 0 || ramp < 0)
+		return 0;
+	xxs = vi->smp < mod->smp ? &mod->xxs[vi->smp] : &g_ctx->smix.xxs[vi->smp - mod->smp];
+	if (vi->sptr == NULL || vi->sptr != (void *)xxs->data || vi->pos < 0)
+		return 0;
+	pos0 = (long)(int)vi->pos;
+	frac0 = (1 << SMIX_SHIFT) * (vi->pos - (int)vi->pos);
+	walk = (int64_t)frac0 + (interp == XMP_INTERP_NEAREST ? (1 << (SMIX_SHIFT - 1)) : 0) + (int64_t)count * step;
+	endf = pos0 + (long)(walk >> 16);
+	lo = (endf < pos0 ? endf : pos0) - 1;
+	hi = (endf > pos0 ? endf : pos0) + 2;
+	/* load_sample allocates 4 bytes before the data and 4 frames after it */
+	pre = 4 / (chn * (s16 ? 2 : 1));
+	if (lo < -pre)
+		lo = -pre;
+	if (hi > xxs->len + 3)
+		hi = xxs->len + 3;
+	if (hi < lo || hi - lo > 6000) {
+		st_k2_skipped++;
+		return 0;
+	}
+	fr = frexp(vi->pos, &ex);
+	pm = (long long)ldexp(fr, 53);
+	pe = pm == 0 ? 0 : ex - 53;
+	/* a tail of untouched words after the span, when the tick buffer has them */
+	tail = (int)((g_ctx->s.buf32 + nwords(g_ctx)) - (buf + n));
+	if (tail > 2)
+		tail = 2;
+	if (tail < 0)
+		tail = 0;
+	printf("C k2 %d %d %d %d %d %d %d %d %d %lld %d %d %d %d %d %d %d %d %d %d 1 %ld %ld", interp, id, count, vl, vr, step, ramp, dl,
+	       dr, pm, pe, vi->old_vl, vi->old_vr, vi->filter.l1, vi->filter.l2, vi->filter.r1, vi->filter.r2, vi->filter.a0,
+	       vi->filter.b0, vi->filter.b1, lo * chn, (hi - lo + 1) * chn);
+	for (e = (int)(lo * chn); e < (int)((hi + 1) * chn); e++)
+		printf(" %d", s16 ? (int)((int16 *)vi->sptr)[e] : (int)((int8 *)vi->sptr)[e]);
+	printf(" %d", n + tail);
+	for (i = 0; i < n + tail; i++)
+		printf(" %u", (unsigned)buf[i]);
+	printf("\n");
+	real(vi, buf, count, vl, vr, step, ramp, dl, dr);
+	printf("E %d %d %d %d |", vi->filter.l1, vi->filter.l2, vi->filter.r1, vi->filter.r2);
+	for (i = 0; i < n + tail; i++)
+		printf(" %u", (unsigned)buf[i]);
+	printf("\n");
+	st_k2_cases++;
+	return 1;
+}
+
+/* canonical m * 2^e of a non-negative double: m odd (or 0 0) */
+static void dbl_canon(double x, unsigned long long *m, int *e)
+{
+	int ex;
+	double fr = frexp(x, &ex);
+	unsigned long long mm = (unsigned long long)ldexp(fr, 53);
+	ex -= 53;
+	if (mm == 0) {
+		*m = 0;
+		*e = 0;
+		return;
+	}
+	while ((mm & 1) == 0) {
+		mm >>= 1;
+		ex++;
+	}
+	*m = mm;
+	*e = ex;
+}
+
+/* Bit-exact Paula kernel case from a real call (driver command `pk`, Xmp.MixKernel.Paula.prun): the whole
+ * Paula state of the voice goes in, buffer and Paula state after the call are compared. */
+static int emit_pk(kern_fp real, const char *name, int stereo, struct mixer_voice *vi, int *buf, int count, int vl, int vr,
+		   int step, int ramp, int dl, int dr)
+{
+	struct paula_state *ps = vi->paula;
+	int tab = strstr(name, "filter") != NULL, n = stereo ? 2 * count : count, i, pe, re, fe, tail;
+	long pos0, hi;
+	long long pm;
+	unsigned long long rm, fm;
+	double fr;
+	int ex;
+
+	if (ps == NULL || vi->sptr == NULL || vi->pos < 0 || step <= 0 || vi->end < 0 || ps->remainder < 0)
+		return 0;
+	pos0 = (long)(unsigned int)vi->pos;
+	hi = pos0 + (long)(((int64_t)count * step + 65536) >> 16) + 1;
+	if (hi > vi->end)
+		hi = vi->end;	/* PAULA_INPUT never reads beyond sptr[vi->end] */
+	if (hi < pos0)
+		hi = pos0 < vi->end ? pos0 : vi->end;
+	if (hi - (pos0 < hi ? pos0 : hi) > 6000)
+		return 0;
+	fr = frexp(vi->pos, &ex);
+	pm = (long long)ldexp(fr, 53);
+	pe = pm == 0 ? 0 : ex - 53;
+	dbl_canon(ps->remainder, &rm, &re);
+	dbl_canon(ps->fdiv, &fm, &fe);
+	tail = (int)((g_ctx->s.buf32 + nwords(g_ctx)) - (buf + n));
+	tail = tail > 2 ? 2 : tail < 0 ? 0 : tail;
+	printf("C pk %d %d %d %d %d %d %lld %d %d %d %llu %d %llu %d %u", stereo, tab, count, vl, vr, step, pm, pe, vi->end,
+	       ps->global_output_level, rm, re, fm, fe, ps->active_bleps);
+	for (i = 0; i < (int)ps->active_bleps; i++)
+		printf(" %d %d", ps->blepstate[i].level, ps->blepstate[i].age);
+	{
+		long lo = pos0 < hi ? pos0 : hi, e;
+		printf(" 1 %ld %ld", lo, hi - lo + 1);
+		for (e = lo; e <= hi; e++)
+			printf(" %d", (int)((int8 *)vi->sptr)[e]);
+	}
+	printf(" %d", n + tail);
+	for (i = 0; i < n + tail; i++)
+		printf(" %u", (unsigned)buf[i]);
+	printf("\n");
+	real(vi, buf, count, vl, vr, step, ramp, dl, dr);
+	dbl_canon(ps->remainder, &rm, &re);
+	printf("E %d %llu %d %u", ps->global_output_level, rm, re, ps->active_bleps);
+	for (i = 0; i < (int)ps->active_bleps; i++)
+		printf(" %d %d", ps->blepstate[i].level, ps->blepstate[i].age);
+	printf(" |");
+	for (i = 0; i < n + tail; i++)
+		printf(" %u", (unsigned)buf[i]);
+	printf("\n");
+	st_pk_cases++;
+	return 1;
 }
 
 static void c14_kernel_call(kern_fp real, const char *name, int stereo, int kind, struct mixer_voice *vi,
@@ -243,6 +396,12 @@ static void c14_kernel_call(kern_fp real, const char *name, int stereo, int kind
 		st_paula_calls++;
 	if (count == 1 && g_tick_active >= 2)
 		st_one_frame_calls++;
+	if (labs((long)vi->vol) > st_maxvol)
+		st_maxvol = labs((long)vi->vol);
+	if (labs((long)vl) > st_maxlevel)
+		st_maxlevel = labs((long)vl);
+	if (labs((long)vr) > st_maxlevel)
+		st_maxlevel = labs((long)vr);
 
 	if (g_first_seen[0] != vi) {
 		g_first_seen[0] = vi;
@@ -261,6 +420,18 @@ static void c14_kernel_call(kern_fp real, const char *name, int stereo, int kind
 			printf("E * * %d %d %d %d\n", vl, vr, dl, dr);
 		else
 			printf("E * * %d %d * *\n", vl, vr);
+	}
+
+	if (b_k2 > 0 && kind != 2 && count <= 600 && vrng_chance(p_kern) &&
+	    emit_k2(real, name, stereo, vi, buf, count, vl, vr, step, ramp, dl, dr)) {
+		b_k2--;
+		return;
+	}
+
+	if (b_pk > 0 && kind == 2 && count <= 600 && vrng_chance(p_kern) &&
+	    emit_pk(real, name, stereo, vi, buf, count, vl, vr, step, ramp, dl, dr)) {
+		b_pk--;
+		return;
 	}
 
 	if (b_kern > 0 && kind != 2 && count <= 192 && vrng_chance(p_kern)) {
@@ -429,6 +600,7 @@ static void tie_tick(struct context_data *ctx)
 	struct mixer_data *s = &ctx->s;
 	struct snap s0, s1, sv;
 	unsigned *full, *acc, *solos = NULL;
+	long long *acc64;
 	char *outcopy;
 	int n, nv, v, i, nactive = 0, outbytes, vt_voice = -1;
 	int emit_sum, nsolo = 0;
@@ -452,6 +624,7 @@ static void tie_tick(struct context_data *ctx)
 		n = XMP_MAX_FRAMESIZE;
 	full = (unsigned *)malloc(n * sizeof(unsigned));
 	acc = (unsigned *)calloc(n, sizeof(unsigned));
+	acc64 = (long long *)calloc(n, sizeof(long long));
 	memcpy(full, s->buf32, n * sizeof(unsigned));
 	outbytes = n * ((s->format & XMP_FORMAT_8BIT) ? 1 : 2);
 	outcopy = (char *)malloc(outbytes);
@@ -485,6 +658,8 @@ static void tie_tick(struct context_data *ctx)
 			nactive++;
 	}
 	st_active_voice_ticks += nactive;
+	if (nactive > st_maxactive)
+		st_maxactive = nactive;
 	if (nactive > 1)
 		st_multi_voice_ticks++;
 
@@ -520,10 +695,8 @@ static void tie_tick(struct context_data *ctx)
 		g_rec_spans = 0;
 		st_voice_solos++;
 		for (i = 0; i < n; i++) {
-			unsigned before = acc[i];
 			acc[i] += (unsigned)s->buf32[i];
-			if (acc[i] < before && (int)s->buf32[i] > 0 && (int)before > 0)
-				st_wraps++;
+			acc64[i] += (long long)s->buf32[i];
 		}
 		if (emit_sum)
 			memcpy(solos + (size_t)nsolo * n, s->buf32, n * sizeof(unsigned));
@@ -540,6 +713,15 @@ static void tie_tick(struct context_data *ctx)
 		snap_free(&sv);
 	}
 	g_in_solo = 0;
+
+	/* the exact integer sum of the solo words: outside the int range = the accumulator wrapped */
+	for (i = 0; i < n; i++) {
+		long long a = acc64[i] < 0 ? -acc64[i] : acc64[i];
+		if (acc64[i] > 2147483647LL || acc64[i] < -2147483648LL)
+			st_wraps++;
+		if (a > st_maxacc)
+			st_maxacc = a;
+	}
 
 	for (i = 0; i < n; i++) {
 		if (acc[i] != full[i]) {
@@ -574,6 +756,7 @@ static void tie_tick(struct context_data *ctx)
 	free(solos);
 	free(full);
 	free(acc);
+	free(acc64);
 	free(outcopy);
 	snap_free(&s0);
 	snap_free(&s1);
@@ -726,11 +909,14 @@ static int mode_tie(uint64_t seed, int nframes, const char *path, int lowrate)
 		return 0;
 	}
 	g_modname = base_name(path);
-	b_sum = 6; b_kern = 10; b_vol = 40; b_dmx = 16; b_vt = 8;
+	b_sum = 6; b_kern = 10; b_vol = 40; b_dmx = 16; b_vt = 8; b_k2 = 14; b_pk = 10;
 	p_kern = 4;
 	st_ticks = st_voice_solos = st_kernel_calls = st_fail = st_active_voice_ticks = st_multi_voice_ticks = 0;
 	st_kern_cases = st_vol_cases = st_sum_cases = st_vt_cases = st_vt_skipped = st_ac_kernel_calls = 0;
 	st_filter_calls = st_paula_calls = st_nonzero_words = st_wraps = st_one_frame_calls = 0;
+	st_k2_cases = st_k2_skipped = st_maxvol = st_maxlevel = st_maxactive = 0;
+	st_maxacc = 0;
+	st_pk_cases = 0;
 	printf("begin tie %s rate=%d fmt=%d interp=%d amp=%d mix=%d master=%d dsp=%d a500=%d pos=%d\n", path, c.rate,
 	       c.fmt, c.interp, c.amp, c.mix, c.master, c.dsp, c.a500, c.startpos);
 	g_tie = 1;
@@ -740,9 +926,51 @@ static int mode_tie(uint64_t seed, int nframes, const char *path, int lowrate)
 	}
 	g_tie = 0;
 	printf("tiestat %s ticks=%ld solos=%ld multi=%ld kernel_calls=%ld ac_calls=%ld filter_calls=%ld paula_calls=%ld "
-	       "one_frame_calls=%ld nonzero_words=%ld fails=%ld sum=%ld vol=%ld kern=%ld vt=%ld vt_skipped=%ld\n", base_name(path), st_ticks,
+	       "one_frame_calls=%ld nonzero_words=%ld fails=%ld sum=%ld vol=%ld kern=%ld vt=%ld vt_skipped=%ld k2=%ld k2_skipped=%ld "
+	       "maxvol=%ld maxlevel=%ld maxactive=%ld wraps=%ld maxacc=%lld pk=%ld\n", base_name(path), st_ticks,
 	       st_voice_solos, st_multi_voice_ticks, st_kernel_calls, st_ac_kernel_calls, st_filter_calls, st_paula_calls,
-	       st_one_frame_calls, st_nonzero_words, st_fail, st_sum_cases, st_vol_cases, st_kern_cases, st_vt_cases, st_vt_skipped);
+	       st_one_frame_calls, st_nonzero_words, st_fail, st_sum_cases, st_vol_cases, st_kern_cases, st_vt_cases, st_vt_skipped,
+	       st_k2_cases, st_k2_skipped, st_maxvol, st_maxlevel, st_maxactive, st_wraps, st_maxacc, st_pk_cases);
+	close_ctx(x);
+	return 0;
+}
+
+/* ------------------------------------------------------------------ */
+/* mode: overdrive (how far the accumulator goes with the player's     */
+/* default settings: does `*(buffer++) += …` leave the int range?)     */
+/* ------------------------------------------------------------------ */
+
+static int mode_overdrive(uint64_t seed, int nframes, const char *path)
+{
+	xmp_context x = xmp_create_context();
+	struct context_data *ctx = (struct context_data *)x;
+	int f;
+
+	(void)seed;
+	libxmp_set_random(&ctx->rng, 0x12345678u);
+	if (xmp_load_module(x, path) < 0 || xmp_start_player(x, 44100, 0) < 0) {
+		xmp_free_context(x);
+		printf("skip %s\n", path);
+		return 0;
+	}
+	if (getenv("C14_MIX") != NULL)
+		xmp_set_player(x, XMP_PLAYER_MIX, atoi(getenv("C14_MIX")));
+	if (getenv("C14_MASTER") != NULL)
+		xmp_set_player(x, XMP_PLAYER_VOLUME, atoi(getenv("C14_MASTER")));
+	g_modname = base_name(path);
+	b_sum = b_kern = b_vol = b_dmx = b_vt = b_k2 = b_pk = 0;
+	st_ticks = st_fail = st_wraps = st_maxvol = st_maxlevel = st_maxactive = 0;
+	st_maxacc = 0;
+	printf("begin overdrive %s\n", path);
+	g_tie = 1;
+	for (f = 0; f < nframes; f++) {
+		if (xmp_play_frame(x) < 0)
+			break;
+	}
+	g_tie = 0;
+	printf("overdrivestat %s ticks=%ld maxvol=%ld maxlevel=%ld maxactive=%ld maxacc=%lld wraps=%ld mvol=%d mvolbase=%d fails=%ld\n",
+	       base_name(path), st_ticks, st_maxvol, st_maxlevel, st_maxactive, st_maxacc, st_wraps, ctx->m.mvol, ctx->m.mvolbase,
+	       st_fail);
 	close_ctx(x);
 	return 0;
 }
@@ -1200,7 +1428,7 @@ int main(int argc, char **argv)
 	const char *mode;
 
 	if (argc < 5) {
-		fprintf(stderr, "usage: %s tie|lowrate|twin|silence|solosum|sep <seed> <nframes> <module>...\n", argv[0]);
+		fprintf(stderr, "usage: %s tie|lowrate|twin|overdrive|silence|solosum|sep <seed> <nframes> <module>...\n", argv[0]);
 		return 2;
 	}
 	mode = argv[1];
@@ -1213,6 +1441,8 @@ int main(int argc, char **argv)
 			mode_tie(seed, nframes, argv[i], 1);
 		else if (!strcmp(mode, "twin"))
 			mode_twin(seed, nframes, argv[i]);
+		else if (!strcmp(mode, "overdrive"))
+			mode_overdrive(seed, nframes, argv[i]);
 		else if (!strcmp(mode, "silence"))
 			mode_silence(seed, nframes, argv[i]);
 		else if (!strcmp(mode, "solosum"))
